@@ -5,9 +5,12 @@ spec -> code : every state TLC dumps for the exhaustive configurations (all 1-d 
                compared with the `out` TLC computed.
 code -> spec : seeded random / hypothesis cases up to 4-d with out-of-range bounds are executed, the
                observed projection recorded, and the batch validated by TLC against SliceTrace.tla.
+Every case is also run with the same numbers stored differently (STORES) and on a "lived-in" dataset that reached the state
+of the case through assignments to its public attributes after construction (LIVED); the expectation stays that of the case.
 """
 import json
 import os
+import random
 from collections import OrderedDict
 
 import numpy as np
@@ -27,11 +30,45 @@ def _bound(x):
 
 STORES = ('F', 'T', 'int', 'npidx', 'strided')
 
+# "lived-in" datasets: `dims` always describes the dataset AS IT IS WHEN THE OPERATION IS APPLIED (that is what the statement
+# quantifies over and what Slice.tla is evaluated on); `lived` says through which history of assignments to the public
+# attributes (value, error, bins, name, what -- "attributes can be changed afterwards") it got there after construction:
+#   'kind'     built with the OTHER kind of bins on every dimension (N+1 edges <-> N centres, other numbers), then
+#              ds.bins[key] = <bins of the case> per dimension (what the documentation notebook does)
+#   'values'   built with the same kind of bins but other numbers, then ds.bins[key] = ... per dimension
+#   'inplace'  built with the same kinds, other numbers everywhere; the contents of ds.bins[key], ds.value, ds.error are
+#              then overwritten in place (ds.value[...] = ...)
+#   'attached' built without bins, then ds.bins = OrderedDict(<bins of the case>)
+#   'rebound'  built with the other kind of bins, then the whole ds.bins replaced by a new OrderedDict
+#   'arrays'   built with other numbers in value / error (same shape), then ds.value = ..., ds.error = ...
+#   'meta'     name / what reassigned
+# a case without bins (kind 'none', squeeze only) is, for the bins histories, built WITH bins that are then removed
+# (ds.bins = OrderedDict() for 'attached' / 'rebound', ds.bins.clear() otherwise): key word 'removed'.
+LIVED = ('kind', 'values', 'inplace', 'attached', 'rebound', 'arrays', 'meta')
+_BINS_HISTORIES = ('kind', 'values', 'inplace', 'attached', 'rebound')
 
-def build(dims, store=None):
+
+def _bins_of(dims, other_kind=False, other_numbers=False):
+    bins = OrderedDict()
+    for k, d in enumerate(dims):
+        edges = (d['kind'] != 'centres') != other_kind          # 'none' counts as edges here (only used when built with bins)
+        npos = d['n'] + 1 if edges else d['n']
+        bins['b%d' % k] = 100.0 * (k + 1) + np.arange(npos, dtype=float) + (1000.0 if other_numbers else 0.0)
+    return bins
+
+
+def _lived_word(case):
+    lived = case.get('lived')
+    if lived in _BINS_HISTORIES and any(d['kind'] == 'none' for d in case['dims']):
+        return 'removed'
+    return lived
+
+
+def build(dims, store=None, lived=None):
     """store: how the same numbers are laid out / typed -- None: C-contiguous float64; 'F': Fortran order; 'T': a
     transposed view; 'int': integer values (errors stay float); 'strided': every other element of a larger buffer;
-    'npidx' only changes how the slice bounds are spelled (numpy integers)."""
+    'npidx' only changes how the slice bounds are spelled (numpy integers).
+    lived: history of public-attribute assignments between construction and the operation (see LIVED)."""
     from valjean.eponine.dataset import Dataset
     shape = tuple(d['n'] for d in dims)
     size = int(np.prod(shape))
@@ -47,14 +84,53 @@ def build(dims, store=None):
         big_v, big_e = np.zeros(shape[:-1] + (2 * shape[-1],)), np.zeros(shape[:-1] + (2 * shape[-1],))
         big_v[..., ::2], big_e[..., ::2] = value, error
         value, error = big_v[..., ::2], big_e[..., ::2]
-    if any(d['kind'] == 'none' for d in dims):
-        bins = None
-    else:
-        bins = OrderedDict()
-        for k, d in enumerate(dims):
-            npos = d['n'] + 1 if d['kind'] == 'edges' else d['n']
-            bins['b%d' % k] = 100.0 * (k + 1) + np.arange(npos, dtype=float)
-    return Dataset(value, error, bins=bins, name='ds', what='w')
+    nobins = any(d['kind'] == 'none' for d in dims)
+    bins = None if nobins else _bins_of(dims)
+    if lived is None:
+        return Dataset(value, error, bins=bins, name='ds', what='w')
+    if lived not in LIVED:
+        raise ValueError('unknown history %r' % (lived,))
+    # state at construction: differs from the case in the aspect named by `lived`
+    value0, error0, bins0, name0, what0 = value, error, bins, 'ds', 'w'
+    if lived == 'arrays':       # the same cells in reversed order: other numbers, still a permutation of the cell indices
+        value0, error0 = (size - 1) - value, (size - 1) - value + 0.5
+    elif lived == 'inplace':    # same buffers (layout of `store` kept), reversed numbers written into them for the time being
+        value, error = value.copy(), error.copy()
+        value0[...] = (size - 1) - value
+        error0[...] = (size - 1) - value + 0.5
+    if lived in _BINS_HISTORIES:
+        if nobins:
+            bins0 = _bins_of(dims)
+        elif lived == 'attached':
+            bins0 = None
+        else:
+            bins0 = _bins_of(dims, other_kind=lived in ('kind', 'rebound'), other_numbers=True)
+    if lived == 'meta':
+        name0, what0 = 'before', 'w0'
+    ds = Dataset(value0, error0, bins=bins0, name=name0, what=what0)
+    # the life of the object: public attributes only
+    if lived == 'arrays':
+        ds.value, ds.error = value, error
+    elif lived == 'inplace':
+        ds.value[...] = value
+        ds.error[...] = error
+    if lived in _BINS_HISTORIES:
+        if nobins:
+            if lived in ('attached', 'rebound'):
+                ds.bins = OrderedDict()
+            else:
+                ds.bins.clear()
+        elif lived in ('attached', 'rebound'):
+            ds.bins = OrderedDict(bins)
+        elif lived == 'inplace':
+            for key, arr in bins.items():
+                ds.bins[key][...] = arr
+        else:
+            for key, arr in bins.items():
+                ds.bins[key] = arr
+    if lived == 'meta':
+        ds.name, ds.what = 'ds', 'w'
+    return ds
 
 
 def digest(ds):
@@ -64,7 +140,10 @@ def digest(ds):
 
 def _cells_per_dim(res_value, shape):
     """Recover, per dimension, the original cell indices kept (values are linear indices)."""
-    idx = np.unravel_index(res_value.astype(int).ravel(), shape)
+    flat = res_value.astype(int).ravel()
+    if flat.size and (flat.min() < 0 or flat.max() >= int(np.prod(shape)) or not np.array_equal(flat, res_value.ravel())):
+        return [], False          # numbers that are not cell indices of this dataset (stale / foreign array)
+    idx = np.unravel_index(flat, shape)
     cells = []
     for k in range(len(shape)):
         cells.append(sorted(set(int(i) for i in idx[k])))
@@ -77,7 +156,12 @@ def observe(case):
     """Run one case on the implementation; returns (obs, problem).  problem = None or text."""
     dims = case['dims']
     store = case.get('store')
-    ds = build(dims, store)
+    try:
+        ds = build(dims, store, case.get('lived'))
+    except Exception as ex:  # pylint: disable=broad-except
+        if not case.get('lived'):
+            raise
+        return None, 'raised while the attributes were reassigned: %s: %s' % (type(ex).__name__, ex)
     before = digest(ds)
     shape = ds.value.shape
     try:
@@ -148,10 +232,16 @@ def vkey(case, problem, exp=None, obs=None):
     how = 'raise' if problem and problem.startswith('raised') else 'wrong'
     if case.get('store'):
         how += '/store-' + case['store']
+    if case.get('lived'):
+        how += '/lived-in-' + _lived_word(case)
     if case['op'] == 'squeeze':
         kinds = sorted(set(d['kind'] for d in case['dims']))
         return 'C09/squeeze/%s/%s' % ('+'.join(kinds), how)
     dims = case['dims']
+    if case.get('lived') and how.startswith('raise'):
+        # an exception on a lived-in dataset cannot be attributed to one dimension or bound: the class is the history and the
+        # kinds of bins present (otherwise one key per combination of bound classes over all dimensions)
+        return 'C09/slice/' + how + '/' + '+'.join(sorted(set(d['kind'] for d in dims)))
     if exp is not None and obs is not None and not obs.get('empty') and len(exp) == len(obs['dims']) == len(dims):
         off = [d for d, e, o in zip(dims, exp, obs['dims'])
                if list(e['cells']) != o['cells'] or (not e.get('binsFree', e.get('free')) and list(e['bins']) != o['bins'])]
@@ -231,6 +321,9 @@ def run_c09(ctx):
     ctx.rule('spec->code: every state dumped by TLC for Slice.tla (Init enumerates op x dims x start/stop incl. None and '
              'out-of-range; Eval computes kept cells and bin positions) is run on a real Dataset with distinct cell values '
              'and bin numbers; code->spec: seeded random cases up to 4-d validated by TLC against SliceTrace.tla. '
+             'Every state is also run on a "lived-in" dataset: one that reached the state of the case through assignments to its public '
+             'attributes after construction (bins replaced by the other kind / other numbers / attached later / removed, arrays replaced '
+             'or overwritten in place, name/what changed; one history per state in rotation, 30% of the random cases). '
              'distinct_nontrivial counts distinct (op, per-dim n/kind/start-class/stop-class) cases that keep at least one '
              'cell (slice) or drop at least one dimension (squeeze).')
     ctx.assume('unit-step slices only; numbers are small integers (exact) stored as float64, C / Fortran order, transposed or strided views, or int64')
@@ -258,6 +351,8 @@ def run_c09(ctx):
                 variants.append(dict(case, dims=[dict(d, step=1) for d in case['dims']]))
             # the same numbers laid out / typed differently (one more variant per state, in rotation)
             variants.append(dict(case, store=STORES[n_replayed % len(STORES)]))
+            # the same dataset reached through a history of public-attribute assignments after construction (in rotation)
+            variants.append(dict(case, lived=LIVED[n_replayed % len(LIVED)]))
             for vcase in variants:
                 obs, problem = observe(vcase)
                 if problem or not agrees(exp, obs, vcase['op']):
@@ -280,6 +375,7 @@ def run_c09(ctx):
 
     # code -> spec
     rng = ctx.rng
+    lived_rng = random.Random(ctx.seed + 9)      # its own stream: the cases drawn from ctx.rng stay what they were
     cases = []
     n_random = ctx.pick(4000, 60000)
     for cid in range(1, n_random + 1):
@@ -302,6 +398,8 @@ def run_c09(ctx):
         case = dict(op=op, dims=dims)
         if rng.random() < 0.4:
             case['store'] = rng.choice(STORES)
+        if lived_rng.random() < 0.3:
+            case['lived'] = lived_rng.choice(LIVED)
         obs, problem = observe(case)
         if problem:
             ctx.violation(vkey(case, problem), problem, case, module='conf_slice')
